@@ -37,7 +37,9 @@ def one_history(rep, rng, dev, hid):
     from tdgl.solver.solver import TDGLSolver
     adaptive = rng.random() < 0.8
     dt_init = 10 ** rng.uniform(-4, -2.3)
-    dt_max = dt_init * 10 ** rng.uniform(0, 1.7)
+    # half of the histories get a generous dt_max so that the proposal 1/2 (dt + dt_init/delta) is NOT clipped and the
+    # averaging term (which must use the step actually taken, after retries) is visible
+    dt_max = dt_init * (10 ** rng.uniform(0, 1.7) if rng.random() < 0.5 else 10 ** rng.uniform(2.5, 4.5))
     window = rng.randint(1, 12)
     mult = rng.choice([0.25, 0.5, 0.1, 0.75, 0.33])
     max_retries = rng.randint(0, 5)
@@ -74,14 +76,19 @@ def one_history(rep, rng, dev, hid):
             state["attempt"] += 1
             state.setdefault("dts", []).append(float(kw["dt"]))
             if k < script[state["step"]]:
+                state["refused"] += 1
                 return None
-            return orig_static(**kw)
+            r = orig_static(**kw)
+            if r is None:
+                state["refused"] += 1                       # a genuine refusal (large step)
+            return r
 
         def upd(st, running_state, dt, **kw):
             if st["step"] >= nsteps:
                 raise Stop()
             state["step"] = st["step"]
             state["attempt"] = 0
+            state["refused"] = 0
             state["dts"] = []
             tent = float(solver.tentative_dt)
             nvals = len(solver.d_psi_sq_vals)
@@ -89,7 +96,7 @@ def one_history(rep, rng, dev, hid):
             d = solver.d_psi_sq_vals[-1] if len(solver.d_psi_sq_vals) > nvals else 0.0
             steps.append(dict(step=st["step"], tentative_before=tent, dt_used=float(res.dt), d=float(d),
                               attempts=list(state["dts"]), tentative_after=float(solver.tentative_dt),
-                              refusals=script[st["step"]]))
+                              refusals=state["refused"]))
             return res
 
         solver.solve_for_psi_squared = sps
@@ -101,7 +108,7 @@ def one_history(rep, rng, dev, hid):
         except RuntimeError as e:
             raised = str(e)[:80]
             steps.append(dict(step=state["step"], tentative_before=float(solver.tentative_dt), dt_used=None, d=0.0,
-                              attempts=list(state["dts"]), refusals=script[state["step"]]))
+                              attempts=list(state["dts"]), refusals=state.get("refused", 0)))
     return cfg, steps, raised
 
 
@@ -136,6 +143,10 @@ def oracle(rep, cfg, steps, raised):
         if st["step"] > cfg["window"]:
             delta = max(1e-10, float(np.mean(vals[-cfg["window"]:])))
             tent = min(0.5 * (st["dt_used"] + cfg["dt_init"] / delta), cfg["dt_max"])
+            if tent < cfg["dt_max"]:
+                rep.coverage["unclipped_proposals"] = rep.coverage.get("unclipped_proposals", 0) + 1
+                if st["refusals"] > 0:
+                    rep.coverage["unclipped_proposals_after_retry"] = rep.coverage.get("unclipped_proposals_after_retry", 0) + 1
         # during the warm-up window the proposal stays
     return
 
@@ -200,6 +211,9 @@ def run(rep: common.Report, tier: str, seed: int, replay=None) -> int:
                                   {**case, "model": m, "impl": [st["dt_used"], st["tentative_after"]]})
                     break
     rep.coverage.update({"histories": nh, "correspondence_disagreements": ndis})
+    if rep.coverage.get("unclipped_proposals_after_retry", 0) < 5:
+        rep.not_shown("coverage: fewer than 5 proposals were both unclipped and preceded by a retried step",
+                      {"unclipped": rep.coverage.get("unclipped_proposals", 0)})
     rep.assumptions += ["refusals are injected by wrapping solve_for_psi_squared on the instance; genuine refusals (strong drive) "
                         "are exercised in the C02 step-level stream", "np.mean vs left-to-right sum: tolerance 1e-12 on the proposal"]
     return rep.finish(level="proof", trusted_base=common.STD_TRUSTED,
